@@ -139,6 +139,13 @@ func c01Layouts(tier string, f func(i int, l pegen.Layout)) {
 				}
 			}
 		}
+		// a DOS stub of 64 KiB and more: e_lfanew (a 32-bit field) at, just below and above the 16-bit limit
+		for _, lf := range []int{0xfff8, 0x10000, 0x10040, 0x23458} {
+			for _, ce := range certs[:2] {
+				f(i, pegen.Layout{PE32Plus: plus, Lfanew: lf, Secs: []pegen.Sec{{RawSize: 13}, {RawSize: 8}}, Trailing: 3, Certs: ce})
+				i++
+			}
+		}
 		// sections without raw data whose (ignored) file pointer is not zero: inside another section,
 		// on a section start / end, at and beyond the end of the file
 		for _, rel := range []int{1, 4, 8, 9, 21, 22, 100000} {
